@@ -70,6 +70,20 @@ def tree_base(e):
     return ref_of(e) is not None and ref_of(e) in _BASE_PTRS
 
 
+def _base_plus(e):
+    """index expression i if e is the pointer base + i / i + base for a pointer base to the first node (built-in pointer
+    arithmetic: base + i is &base[i]); None otherwise"""
+    e = strip_casts(e)
+    if e is None or e["k"] != "BinaryOperator" or e.get("op") != "+" or len(kids(e)) != 2 or not _bare_type(e.get("ty")).endswith("*"):
+        return None
+    a, b = kids(e)
+    if tree_base(a) and not _bare_type((strip_casts(b) or {}).get("ty")).endswith("*"):
+        return b
+    if tree_base(b) and not _bare_type((strip_casts(a) or {}).get("ty")).endswith("*"):
+        return a
+    return None
+
+
 def node_index(n):
     """index expression i if n is this->losers_[i] (also through a local reference / constant pointer bound to it, and
     base[i] / *base / base-> for a pointer to the first node)"""
@@ -80,12 +94,20 @@ def node_index(n):
         return p[1]
     if ref_of(n) is not None and ref_of(n) in _BASE_PTRS:
         return _ZERO                               # base->f
+    n_ = strip_casts(n)
+    if n_ is not None and "callee" in n_ and tree_accessor(n_, 1) == 0 and _bare_type(n_.get("ty")).endswith("*"):
+        return _ZERO                               # losers_.data()->f: the pointer to the first node, used with ->
+    pa = _base_plus(n_)
+    if pa is not None:
+        return pa                                  # (base + i)->f
     if ref_of(n) is not None and ref_of(n) in _WALK_PTRS:
         return strip_casts(n)                      # game->f: the walking pointer itself names the node
     if match.deref_of(n) is not None and ref_of(match.deref_of(n)) in _WALK_PTRS:
         return strip_casts(match.deref_of(n))      # (*game).f
     if match.deref_of(n) is not None and tree_base(match.deref_of(n)) and not (strip_casts(match.deref_of(n))["k"] == "UnaryOperator"):
         return _ZERO                               # (*base).f
+    if match.deref_of(n) is not None and _base_plus(match.deref_of(n)) is not None:
+        return _base_plus(match.deref_of(n))       # (*(base + i)).f
     d = ref_of(n)
     if d is not None and d in _REF_INITS:
         return node_index(_REF_INITS[d])
@@ -1223,10 +1245,161 @@ def code_value(e, run):
     return None
 
 
+def _copy_renamed(n, rename, subst=None):
+    """deep copy of a statement / expression with fresh node ids; the declarations in `rename` (id -> new id) become locals
+    of the new identity, a reference to a declaration in `subst` is replaced by a copy of the expression given there"""
+    if n is None:
+        return None
+    if n["k"] == "DeclRefExpr":
+        d = n["ref"]["id"]
+        if subst and d in subst:
+            return _clone(subst[d])
+        out = dict(n)
+        out["id"] = _fresh_id()
+        if d in rename:
+            out["ref"] = dict(n["ref"], id=rename[d], kind="local")
+        return out
+    out = dict(n)
+    out["id"] = _fresh_id()
+    if n["k"] == "VarDecl" and n.get("did") in rename:
+        out["did"] = rename[n["did"]]
+    if "ch" in n:
+        out["ch"] = [_copy_renamed(c, rename, subst) for c in n["ch"]]
+    for key in ("init", "condvar"):
+        if isinstance(n.get(key), dict):
+            out[key] = _copy_renamed(n[key], rename, subst)
+    return out
+
+
+def _self_call(callee, e):
+    """the arguments if the expression e is this->callee(args...) with one argument per parameter"""
+    e = _through_temporaries(e)
+    if e is None or e["k"] != "CXXMemberCallExpr" or not e.get("member_call") or "callee" not in e or e["callee"].get("did") != callee.did:
+        return None
+    args = [a for a in kids(e) if a is not None]
+    if not args or strip_casts(args[0]) is None or strip_casts(args[0])["k"] != "This":
+        return None
+    args = args[1:]
+    if len(args) != len(callee.params) or any(a["k"] == "DefaultArg" for a in args):
+        return None
+    return args
+
+
+def lower_tail_recursion(fn):
+    """`replay(start, Loser{ source, keyp });` standing as a statement of the function, where the private member
+         void replay(Source pos, Loser c) { if (pos == 0) { A; return; }  B;  replay(pos / 2, c); }
+    calls itself exactly once, as its last statement, and returns nowhere but in the base case it begins with, is written
+    out as the loop it stands for:
+         Source pos = start;  Loser c = Loser{ source, keyp };  while (!(pos == 0)) { B;  pos = pos / 2; }  A;
+    Parameters are taken by value (each call works on its own copies; the loop's locals are the copies of the innermost
+    call, the only ones still read).  A parameter the recursive call passes on unchanged keeps its value; the others are
+    assigned at the end of the body, which is right one after the other only if no new value reads a parameter assigned
+    before it.  The base-case test must be free of side effects.  Nothing is touched if a condition is not met."""
+    body = fn.body
+    if body is None or fn.tu is None or body["k"] != "CompoundStmt":
+        return False
+    out, done = [], 0
+    for s in kids(body):
+        blk = None
+        e0 = _through_temporaries(s) if s is not None else None
+        callee = fn.tu.by_did.get(e0["callee"].get("did")) if e0 is not None and e0["k"] == "CXXMemberCallExpr" and "callee" in e0 else None
+        if callee is not None and callee.body is not None and callee.did != fn.did and callee.kind == "method" and callee.record == fn.record:
+            args = _self_call(callee, e0)
+            if args is not None:
+                blk = _tail_loop(fn, callee, args, e0)
+        if blk is None:
+            out.append(s)
+        else:
+            out.extend(blk)
+            done += 1
+    if not done:
+        return False
+    fn.body = dict(body, ch=out)
+    fn._byid = None
+    return True
+
+
+def _tail_loop(fn, callee, args, at):
+    stmts = [s for s in kids(callee.body) if s is not None and s["k"] != "NullStmt"] if callee.body["k"] == "CompoundStmt" else []
+    if len(stmts) < 2:
+        return None
+    first, last = stmts[0], stmts[-1]
+    rec = _self_call(callee, last)
+    if rec is None:
+        return None
+    if first["k"] != "IfStmt" or "init" in first or "condvar" in first:
+        return None
+    c, t, e = (list(kids(first)) + [None, None])[:3]
+    if e is not None or c is None or t is None or not _pure_designator(c):
+        return None
+    base = [x for x in _as_list(t) if x is not None and x["k"] != "NullStmt"]
+    if not base or base[-1]["k"] != "ReturnStmt" or any(x is not None for x in kids(base[-1])):
+        return None
+    base = base[:-1]
+    middle = stmts[1:-1]
+    for x in ir.walk(callee.body):
+        if x["k"] in ("LambdaExpr", "GotoStmt", "LabelStmt", "CXXTryStmt", "BreakStmt", "ContinueStmt"):
+            return None
+        if x["k"] == "ReturnStmt" and x is not (_as_list(t) or [None])[-1]:
+            return None
+        if "callee" in x and x["callee"].get("did") == callee.did and x is not _through_temporaries(last):
+            return None
+    for x in ir.walk(t):
+        if x["k"] == "ReturnStmt" and x is not _as_list(t)[-1]:
+            return None
+    if any(x["k"] == "ReturnStmt" for s_ in middle for x in ir.walk(s_)):
+        return None
+    rename = {}
+    for p_ in callee.params:
+        ty = (p_.get("ty") or "").rstrip()
+        if ty.endswith("&") or ty.endswith("]") or p_.get("did") is None:
+            return None
+        rename[p_["did"]] = _fresh_id()
+    for y in ir.walk(callee.body):
+        if y["k"] == "VarDecl" and y.get("did") is not None:
+            rename[y["did"]] = _fresh_id()
+    steps, assigned = [], []
+    for p_, r in zip(callee.params, rec):
+        r0 = _through_temporaries(match.strip_conv(r))
+        if r0 is not None and r0["k"] == "DeclRefExpr" and r0["ref"]["id"] == p_["did"]:
+            continue                                 # passed on as it is
+        if any(y["k"] == "DeclRefExpr" and y["ref"]["id"] in assigned for y in ir.walk(r)) or not _pure_designator(r):
+            return None
+        assigned.append(p_["did"])
+        ty = _bare_type(p_.get("ty"))
+        lhs = {"k": "DeclRefExpr", "id": _fresh_id(), "l": last.get("l"), "lv": True, "ty": ty,
+               "ref": {"id": rename[p_["did"]], "kind": "local", "name": p_.get("name"), "vty": ty}}
+        n = {"k": "BinaryOperator", "id": _fresh_id(), "l": last.get("l"), "ty": ty, "lv": True, "op": "=",
+             "ch": [lhs, _copy_renamed(r, rename)], "synthetic": True}
+        if last.get("f"):
+            n["f"] = last["f"]
+            lhs["f"] = last["f"]
+        steps.append(n)
+    if not steps:
+        return None
+    pre = []
+    for p_, a in zip(callee.params, args):
+        v = {"k": "VarDecl", "id": _fresh_id(), "did": rename[p_["did"]], "name": p_.get("name"), "ty": _bare_type(p_.get("ty")), "l": at.get("l"),
+             "ch": [_clone(a)]}
+        d = {"k": "DeclStmt", "id": _fresh_id(), "l": at.get("l"), "ch": [v]}
+        if at.get("f"):
+            v["f"] = d["f"] = at["f"]
+        pre.append(d)
+    cond = {"k": "UnaryOperator", "id": _fresh_id(), "l": c.get("l"), "op": "!", "ty": "bool", "ch": [_copy_renamed(c, rename)]}
+    loop = {"k": "WhileStmt", "id": _fresh_id(), "l": first.get("l"),
+            "ch": [cond, _block([_copy_renamed(s_, rename) for s_ in middle] + steps, callee.body)]}
+    for n in (cond, loop, loop["ch"][1]):
+        if first.get("f"):
+            n["f"] = first["f"]
+    return pre + [loop] + [_copy_renamed(s_, rename) for s_ in base]
+
+
 def lower_novel_forms(fn):
     """spellings that the rules do not read are replaced by the plain statements they stand for, in fn.body (the extracted
-    tree is not changed): calls of local lambdas that stand as statements, std::tie packs, std::exchange, switch.  Each
-    step leaves the function alone unless it can do the whole job safely; on the pristine tree nothing is touched."""
+    tree is not changed): calls of local lambdas that stand as statements, std::tie packs, std::exchange, switch, a
+    tail-recursive private helper that stands for the replay loop.  Each step leaves the function alone unless it can do
+    the whole job safely; on the pristine tree nothing is touched."""
+    lower_tail_recursion(fn)
     inline_local_lambdas(fn)
     expand_reference_packs(fn)
     lower_exchange(fn)
@@ -2607,7 +2780,16 @@ class _LifeFn:
             if x["callee"]["name"] in ("move", "forward", "unused", "addressof", "min", "max") or x["k"] == "CXXOperatorCallExpr" and x.get("op") != "()":
                 continue
             callee = self.life.callee(x)
-            for i, a in self.life.arguments(x, callee):
+            pairs = self.life.arguments(x, callee)
+            if callee is None and x["k"] == "CXXOperatorCallExpr" and x.get("op") == "()":
+                # a call of a lambda (node_wins(node, keyp, source)): its declared parameters say whether it can change the
+                # caller's variable; a parameter taken by value or by reference to const cannot
+                lf = fn.tu.by_did.get(x["callee"].get("did")) if fn.tu is not None else None
+                if lf is not None and lf.kind == "lambda" and len(kids(x)) == len(lf.params) + 1 and \
+                        not any(a is None or a["k"] == "DefaultArg" for a in kids(x)):
+                    callee = lf
+                    pairs = list(enumerate(kids(x)[1:]))
+            for i, a in pairs:
                 d = self.variable(a) if a is not None else None
                 if d is None or not self.is_pointer_variable(d):
                     continue
@@ -3160,9 +3342,37 @@ def check_trees_in(ck, tu):
     """the replay and initialisation decision tables for whatever loser-tree classes a translation unit
     instantiates; used by C05/C06/C07, whose k >= 5 merges stand on these trees"""
     n = 0
+    raw_box = []
+
+    def as_written(fn):
+        """the function as it is written, if the normaliser of engine/normalize.py rewrote it and left no loop at its top
+        level (it unrolls a recursive helper that stands for the replay loop): the same instantiation (same full name, same
+        class) in the translation unit extracted again without the normaliser.  With which macro definitions the caller
+        extracted `tu` is not known here: the file is extracted without any, and only a function of exactly this
+        instantiation is taken from it (the same template, the same arguments: the same code)."""
+        if not getattr(fn, "normalized", False) or fn.body is None or \
+                any(s_ is not None and s_["k"] in ("WhileStmt", "ForStmt", "DoStmt") for s_ in kids(fn.body)):
+            return fn
+        if not raw_box:
+            import os
+            had = os.environ.get("VERIF_NO_NORMALIZE")
+            os.environ["VERIF_NO_NORMALIZE"] = "1"
+            try:
+                raw_box.append(ir.extract(tu.src))
+            except ir.AnalysisBroken:
+                raw_box.append(None)
+            finally:
+                if had is None:
+                    del os.environ["VERIF_NO_NORMALIZE"]
+                else:
+                    os.environ["VERIF_NO_NORMALIZE"] = had
+        if raw_box[0] is None:
+            return fn
+        same = [f for f in raw_box[0].find(name=fn.name, record=fn.record) if f.full == fn.full and f.file == fn.file]
+        return same[0] if len(same) == 1 and same[0].body is not None else fn
     for rec, info in CLASSES.items():
         for fn in tu.find(name="delete_min_insert", record=rec):
-            ck.guarded(lambda fn=fn, info=info: check_replay(ck, fn, info, fn.rtargs[0] == "true"))
+            ck.guarded(lambda fn=fn, info=info: check_replay(ck, as_written(fn), info, fn.rtargs[0] == "true"))
             n += 1
         for fn in tu.find(record=info["base"]):
             if fn.name == "init_winner":
@@ -3183,13 +3393,45 @@ def run(ck):
     for t in types:
         tu = ir.extract("witness/C09_loser_tree.cpp", defines=["WITNESS_T=" + t], extra_flags=["-include", "string"],
                         roots=[ir.REPO + "/tlx/", ir.VERIF + "/witness/"])
+        # which object an address designates is not preserved by the normaliser of engine/normalize.py (a const copy of a value
+        # is replaced by what it was copied from; a helper's value parameter by the argument; a recursive helper is unrolled a
+        # few levels): the key-lifetime rule reads the tree as written, and so does the replay rule for a function in which the
+        # normaliser left no replay loop
+        raw_box = []
+
+        def raw_tu(tu=tu, t=t, raw_box=raw_box):
+            if not raw_box:
+                raw = tu
+                if getattr(tu, "normalized", 0):
+                    import os
+                    had = os.environ.get("VERIF_NO_NORMALIZE")
+                    os.environ["VERIF_NO_NORMALIZE"] = "1"
+                    try:
+                        raw = ir.extract("witness/C09_loser_tree.cpp", defines=["WITNESS_T=" + t], extra_flags=["-include", "string"],
+                                         roots=[ir.REPO + "/tlx/", ir.VERIF + "/witness/"])
+                    finally:
+                        if had is None:
+                            del os.environ["VERIF_NO_NORMALIZE"]
+                        else:
+                            os.environ["VERIF_NO_NORMALIZE"] = had
+                raw_box.append(raw)
+            return raw_box[0]
+
+        def as_written(fn):
+            """the function as it is written, if the normaliser rewrote it and left no loop at its top level (a recursive
+            helper that stands for the replay loop is unrolled by it, not understood)"""
+            if not getattr(fn, "normalized", False) or fn.body is None or \
+                    any(s_ is not None and s_["k"] in ("WhileStmt", "ForStmt", "DoStmt") for s_ in kids(fn.body)):
+                return fn
+            same = [f for f in raw_tu().find(name=fn.name, record=fn.record) if f.full == fn.full]
+            return same[0] if len(same) == 1 else fn
         for rec, info in CLASSES.items():
             fns = [f for f in tu.find(name="delete_min_insert", record=rec) if f.rtargs[1:2] != ["S16"] and f.rtargs[1:2] != ["S24"]]
             ck.require(len(fns) == 2, "%s: expected stable and unstable delete_min_insert, found %d" % (rec, len(fns)))
             for fn in fns:
                 stable = fn.rtargs[0] == "true"
                 # a function that is not understood (exit 2) does not hide a violation found in another one
-                ck.guarded(lambda fn=fn, info=info, stable=stable: check_replay(ck, fn, info, stable))
+                ck.guarded(lambda fn=fn, info=info, stable=stable: check_replay(ck, as_written(fn), info, stable))
                 n_replay += 1
             bases = [f for f in tu.find(record=info["base"]) if f.rtargs[:1] not in (["S16"], ["S24"])]
             for fn in bases:
@@ -3199,22 +3441,7 @@ def run(ck):
                     ck.guarded(lambda fn=fn, info=info: check_min_source(ck, fn, info["guarded"] and info["pointer"]))
                 elif fn.kind == "ctor":
                     ck.guarded(lambda fn=fn, info=info: check_padding(ck, fn, info["guarded"], info["pointer"]))
-        # which object an address designates is not preserved by the normaliser of engine/normalize.py (a const copy of a value
-        # is replaced by what it was copied from; a helper's value parameter by the argument): this rule reads the tree as written
-        raw = tu
-        if getattr(tu, "normalized", 0):
-            import os
-            had = os.environ.get("VERIF_NO_NORMALIZE")
-            os.environ["VERIF_NO_NORMALIZE"] = "1"
-            try:
-                raw = ir.extract("witness/C09_loser_tree.cpp", defines=["WITNESS_T=" + t], extra_flags=["-include", "string"],
-                                 roots=[ir.REPO + "/tlx/", ir.VERIF + "/witness/"])
-            finally:
-                if had is None:
-                    del os.environ["VERIF_NO_NORMALIZE"]
-                else:
-                    os.environ["VERIF_NO_NORMALIZE"] = had
-        check_key_lifetime(ck, raw)
+        check_key_lifetime(ck, raw_tu())
         check_switch(ck, tu)
     m = len(types)
     ck.floor("REPLAY-TABLE", 8 * m)
